@@ -1,6 +1,6 @@
 import RedkaModel.Proto
 import RedkaModel.Model.Inv
-import RedkaModel.Spec.Abs
+import RedkaModel.Spec.Meta
 
 open Redka Redka.Proto
 
@@ -43,7 +43,13 @@ def judge (line : String) : String :=
           | some true => "1" | some false => "0" | none => "-"
         let ks := String.intercalate "," (Spec.known inTx op now pre)
         let invPre := if (canon pre).invB then "1" else "0"
-        let tail := s!"P={invPre} I={inv} S={sv} K={ks}"
+        let nv := match Spec.noTrace inTx op (canon pre) post res with
+          | some true => "1" | some false => "0" | none => "-"
+        let vv := if Spec.traceless inTx op res then "-"
+          else if Spec.metaOK op now (canon pre) post res then "1" else "0"
+        let av := if cands.any (fun r => isOutOfDomain r.out) then "-"
+          else if cands.any (fun r => outEq r.out res && decide (Spec.abs now r.db = Spec.abs now post)) then "1" else "0"
+        let tail := s!"A={av} P={invPre} I={inv} S={sv} N={nv} V={vv} K={ks}"
         if cands.any (fun r => isOutOfDomain r.out) then s!"{seq} M=- {tail}"
         else
           match cands.find? (fun r => outEq r.out res && decide (canon r.db = post)) with
